@@ -82,4 +82,193 @@ Section StreamKZG.
     | [] => coeffs
     | _ => last (fold_tree chs coeffs) []
     end.
+  (* ================= multi-point openings ================= *)
+  (* DensePolynomial::naive_mul *)
+  Fixpoint pmul (p q : poly) : poly :=
+    match p with
+    | [] => []
+    | c :: t => padd (pscale c q) (f0 :: pmul t q)
+    end.
+  (* vanishing_polynomial: prod (X - x) *)
+  Definition vanishing (pts : list F) : poly := fold_left (fun acc x => pmul acc [fopp x; f1]) pts [f1].
+
+  (* ---- time.rs: open_multi_points = commitment to the quotient of the long division by Z ----
+     little-endian structural division by a monic divisor of degree k given by its k low coefficients:
+     p = c + X*t,  t = q'*Z + r'  ==>  X*r' = a*Z + (X*r' - a*Z) with a the top coefficient of r' *)
+  Fixpoint sub_scaled (st zt : list F) (qc : F) : list F :=
+    match st, zt with
+    | s :: st', z :: zt' => fsub s (fmul z qc) :: sub_scaled st' zt' qc
+    | _, _ => st
+    end.
+  Fixpoint ldivmod (p : poly) (zlow : list F) : poly * poly :=
+    match p with
+    | [] => ([], repeat f0 (length zlow))
+    | c :: t => let '(q', r') := ldivmod t zlow in
+                let a := last r' f0 in
+                (a :: q', sub_scaled (c :: removelast r') zlow a)
+    end.
+  Definition zlow_of (pts : list F) : list F := removelast (vanishing pts).
+  Definition time_open_multi (ck : SKey) (p : poly) (pts : list F) : F :=
+    msm (sk_g ck) (fst (ldivmod p (zlow_of pts))).
+
+  (* linear_combination with the powers of the batching challenge *)
+  Fixpoint lin_comb (ps : list poly) (etas : list F) : poly :=
+    match ps, etas with
+    | p :: ps', e :: es' => padd (pscale e p) (lin_comb ps' es')
+    | _, _ => []
+    end.
+  Definition time_batch_open_multi (ck : SKey) (ps : list poly) (pts : list F) (eta : F) : res F :=
+    if length pts <? length (sk_g2 ck) then Ok (time_open_multi ck (lin_comb ps (powers eta (length ps))) pts)
+    else Panic.    (* assert!(eval_points.len() < self.powers_of_g2.len()) *)
+
+  (* ---- space.rs: open_multi_points, the streaming division over the big-endian stream ----
+     state = sliding window of k coefficients; each further coefficient pops one quotient coefficient *)
+  Fixpoint smp_loop (zt : list F) (coeffs bases st : list F) (acc : F) : res (list F * F) :=
+    match coeffs with
+    | [] => Ok (st, acc)
+    | c :: cs => match st, bases with
+                 | qc :: st', b :: bs => smp_loop zt cs bs (sub_scaled (st' ++ [c]) zt qc) (fadd acc (fmul b qc))
+                 | _, _ => Panic
+                 end
+    end.
+  Definition zt_of (pts : list F) : list F := tl (rev (vanishing pts)).   (* Z_{k-1}, ..., Z_0 *)
+  Definition space_open_multi (ck : SKey) (p : poly) (pts : list F) : res (list F * F) :=
+    let k := length pts in
+    if length (sk_g ck) <? length p then Panic else
+    let be := rev p in
+    let missing := k - length p in
+    smp_loop (zt_of pts) (skipn (k - missing) be)
+             (skipn (length (sk_g ck) - length p + k) (rev (sk_g ck)))
+             (repeat f0 missing ++ firstn (k - missing) be) f0.
+
+  (* ---- mod.rs: verify_multi_points ---- *)
+  Fixpoint prod_diff (xj : F) (pts : list F) (j k : nat) : F :=   (* prod_{k <> j} (x_j - x_k) *)
+    match pts with
+    | [] => f1
+    | x :: t => fmul (if k =? j then f1 else fsub xj x) (prod_diff xj t j (S k))
+    end.
+  Fixpoint lang_poly (pts : list F) (j k : nat) (acc : poly) : poly :=   (* prod_{k <> j} (X - x_k) *)
+    match pts with
+    | [] => acc
+    | x :: t => lang_poly t j (S k) (if k =? j then acc else pmul acc [fopp x; f1])
+    end.
+  Fixpoint interp_loop (pts all : list F) (evals : list F) (j : nat) : poly :=
+    match pts, evals with
+    | xj :: t, y :: ys => padd (pscale (fmul (finv (prod_diff xj all j 0)) y) (lang_poly all j 0 [f1]))
+                               (interp_loop t all ys (S j))
+    | _, _ => []
+    end.
+  Definition interpolate (pts evals : list F) : poly := interp_loop pts pts evals 0.
+
+  (* verifier keys: From<&CommitterKey> keeps max_eval_points powers of g, From<&CommitterKeyStream> the same (at least g) *)
+  Definition vk_of_time (ck : SKey) : res SKey :=
+    let me := length (sk_g2 ck) - 1 in
+    if length (sk_g ck) <? me then Panic else Ok {| sk_g := firstn me (sk_g ck); sk_g2 := sk_g2 ck |}.
+  Definition vk_of_stream (ck : SKey) : res SKey :=
+    match sk_g ck with
+    | _ :: _ => Ok {| sk_g := firstn (Nat.max (length (sk_g2 ck) - 1) 1) (sk_g ck); sk_g2 := sk_g2 ck |}
+    | [] => Panic
+    end.
+  (* msm / msm_bigint pair bases and scalars up to the shorter of the two *)
+  Definition verify_multi_residual (vk : SKey) (cs : list F) (pts : list F) (evals : list (list F)) (pi eta : F) : F :=
+    let z := vanishing pts in
+    let zh := msm (sk_g2 vk) z in
+    let etas := powers eta (length evals) in
+    let ipoly := lin_comb (map (interpolate pts) evals) etas in
+    let icomm := msm (sk_g vk) ipoly in
+    let fcomm := msm cs etas in
+    fsub (fmul (fsub fcomm icomm) (hd f0 (sk_g2 vk))) (fmul pi zh).
+  Definition verify_multi (vk : SKey) (cs pts : list F) (evals : list (list F)) (pi eta : F) : bool :=
+    feqb (verify_multi_residual vk cs pts evals pi eta) f0.
+
+  (* ================= the folding iterators (stack machines of data_structures.rs) ================= *)
+  (* init_stack: as if the stream were zero-padded in front up to a multiple of 2^depth; top of the stack = head *)
+  Fixpoint init_stack_loop (delta : nat) (i : nat) (st : list (nat * F)) : list (nat * F) :=
+    match i with
+    | O => st
+    | S i' => if 2 ^ i' <=? delta then init_stack_loop (delta - 2 ^ i') i' ((i', f0) :: st)
+              else init_stack_loop delta i' st
+    end.
+  Definition init_stack (n depth : nat) : list (nat * F) :=
+    let chunk := 2 ^ depth in
+    if n mod chunk =? 0 then [] else init_stack_loop (chunk - n mod chunk) depth [].
+
+  (* FoldedPolynomialTreeIter::next, one inner step: (stack, input) -> (stack', input', item) *)
+  Definition tree_step (chs : list F) (st : list (nat * F)) (inp : list F) : option (list (nat * F) * list F * (nat * F)) :=
+    let depth := length chs in
+    let read := match inp with
+                | [] => None
+                | c :: inp' => Some (st, inp', (O, c))
+                end in
+    let r := match st with
+             | (l1, lhs) :: (l2, rhs) :: st' =>
+               if l1 =? l2 then Some (st', inp, (S l2, fadd (fmul rhs (nth l2 chs f0)) lhs)) else read
+             | _ => read
+             end in
+    match r with
+    | None => None
+    | Some (st1, inp1, item) => Some ((if fst item =? depth then st1 else item :: st1), inp1, item)
+    end.
+  Fixpoint tree_run (fuel : nat) (chs : list F) (st : list (nat * F)) (inp : list F) : list (nat * F) :=
+    match fuel with
+    | O => []
+    | S f => match tree_step chs st inp with
+             | None => []
+             | Some (st', inp', item) =>
+               if fst item =? 0 then tree_run f chs st' inp' else item :: tree_run f chs st' inp'
+             end
+    end.
+  Definition tree_iter (chs coeffs : list F) : list (nat * F) :=
+    tree_run (2 * (length coeffs + 2 ^ length chs) + 2) chs (init_stack (length coeffs) (length chs)) coeffs.
+
+  (* FoldedPolynomialStreamIter::next, one iteration of its loop *)
+  Definition stream_step (chs : list F) (st : list (nat * F)) (inp : list F) : option (list (nat * F) * list F * (nat * F)) :=
+    let depth := length chs in
+    let read1 := match inp with
+                 | [] => None
+                 | c :: inp' => Some (st, inp', (O, c))
+                 end in
+    let read2 := match inp with
+                 | rhs :: lhs :: inp' => Some (st, inp', (1, fadd (fmul (nth 0 chs f0) rhs) lhs))
+                 | _ => None
+                 end in
+    let top_nonzero := match st with [] => true | (l, _) :: _ => negb (l =? 0) end in
+    match st with
+    | (l1, lhs) :: (l2, rhs) :: st' =>
+      if l1 =? l2 then Some (st', inp, (S l2, fadd (fmul rhs (nth l2 chs f0)) lhs))
+      else if (0 <? depth) && top_nonzero then read2 else read1
+    | _ => if (0 <? depth) && top_nonzero then read2 else read1
+    end.
+  Fixpoint stream_run (fuel : nat) (chs : list F) (st : list (nat * F)) (inp : list F) : list F :=
+    match fuel with
+    | O => []
+    | S f => match stream_step chs st inp with
+             | None => []
+             | Some (st', inp', (level, x)) =>
+               if level =? length chs then x :: stream_run f chs st' inp'
+               else stream_run f chs ((level, x) :: st') inp'
+             end
+    end.
+  Definition stream_iter (chs coeffs : list F) : list F :=
+    stream_run (2 * (length coeffs + 2 ^ length chs) + 2) chs (init_stack (length coeffs) (length chs)) coeffs.
+
+  Definition by_level (i : nat) (items : list (nat * F)) : list F := map snd (filter (fun it => fst it =? i) items).
+
+  (* commit_folding: level i (1-based) paired in emission order with the reversed powers from offset len - ceil(n / 2^i) *)
+  Definition ceil_div (a b : nat) : nat := (a + b - 1) / b.
+  Definition commit_folding (ck : SKey) (chs coeffs : list F) : res (list F) :=
+    let items := tree_iter chs coeffs in
+    mapM (fun i => let m := ceil_div (length coeffs) (2 ^ i) in
+                   if length (sk_g ck) <? m then Panic
+                   else Ok (msm (skipn (length (sk_g ck) - m) (rev (sk_g ck))) (by_level i items)))
+         (seq 1 (length chs)).
+  (* open_folding: per level the streaming division started from k zeros; proof = sum_i eta_i * quotient_i(tau) g *)
+  Definition open_folding (ck : SKey) (chs coeffs pts etas : list F) : res (list (list F) * F) :=
+    let items := tree_iter chs coeffs in
+    do l <- mapM (fun i => let m := ceil_div (length coeffs) (2 ^ i) in
+                           if length (sk_g ck) <? m then Panic
+                           else smp_loop (zt_of pts) (by_level i items) (skipn (length (sk_g ck) - m) (rev (sk_g ck)))
+                                         (repeat f0 (length pts)) f0)
+               (seq 1 (length chs));
+    Ok (map fst l, msm (map snd l) etas).
 End StreamKZG.
